@@ -31,6 +31,13 @@ TWO_TERMINAL = {
     'Vtri': ('TriangleVoltageSource', ['V', 'w', 'phi', 'deg']), 'Itri': ('TriangleCurrentSource', ['I', 'w', 'phi', 'deg']),
     'Vsaw': ('SawtoothVoltageSource', ['V', 'w', 'phi', 'deg']), 'Isaw': ('SawtoothCurrentSource', ['I', 'w', 'phi', 'deg']),
 }
+# linear (lossy) DC sources: compound symbols of fixed size (the voltage source is 5 long and extends
+# *backwards* from its `at` point, the current source is 3 long) — only in `linear_source_program`
+LINEAR = {'Vreal': ('RealVoltageSource', 5.0), 'Ireal': ('RealCurrentSource', 3.0)}
+# constructors that take `name` (also) positionally: name=… by position is a supported call
+POSITIONAL = {'C': ['C', 'name'], 'L': ['L', 'name'], 'lamp': ['V_ref', 'P_ref', 'name'], 'switch': ['name'],
+              'Vac': ['V', 'w', 'phi', 'name'], 'Vrect': ['V', 'w', 'phi', 'name'], 'Irect': ['I', 'w', 'phi', 'name'],
+              'Vtri': ['V', 'w', 'phi', 'name'], 'Itri': ['I', 'w', 'phi', 'name'], 'Vsaw': ['V', 'w', 'phi', 'name'], 'Isaw': ['I', 'w', 'phi', 'name']}
 PASSIVE = ['R', 'G', 'Z', 'C', 'L', 'lamp', 'switch', 'sc']
 SOURCES = ['V', 'I', 'Vc', 'Ic', 'Vac', 'Iac', 'Vrect', 'Irect', 'Vtri', 'Itri', 'Vsaw', 'Isaw']
 ONE_TERMINAL = {'node': 'Node', 'lnode': 'LabelNode', 'gnd': 'Ground'}
@@ -82,8 +89,18 @@ def make_element(step):
         if k == 'lnode':
             kw['id_loc'] = step.get('id_loc', 'N')
         return cls(**kw)
+    if k in LINEAR:
+        return getattr(elm, LINEAR[k][0])(name=step['name'], **step['vals'])
     cls = getattr(elm, TWO_TERMINAL[k][0])
     kw = dict(step.get('vals', {}))
+    if step.get('positional') and k in POSITIONAL:
+        if k == 'switch':
+            kw['state'] = elm.SwitchState.OPEN if kw.get('state', 'OPEN') == 'OPEN' else elm.SwitchState.CLOSED
+        kw['name'] = step['name']
+        args = [kw.pop(a) for a in POSITIONAL[k]]
+        if step.get('rev'):
+            kw['reverse'] = True
+        return cls(*args, **kw)
     if k == 'switch':
         kw['state'] = elm.SwitchState.OPEN if kw.get('state', 'OPEN') == 'OPEN' else elm.SwitchState.CLOSED
     kw['name'] = step['name']
@@ -111,6 +128,12 @@ def build(program, geom, schematic=None):
         b = step['b']
         place = step.get('place', 'endpoints')
         dname = direction_of(a, b, k)
+        if step['kind'] in LINEAR:
+            # fixed-size symbol: one grid step of exactly its own length, placed by a direction method
+            e.at(to_xy(geom, b if step['kind'] == 'Vreal' else a))
+            getattr(e, dname)()
+            d.add(e); placed.append(e); here_grid = b
+            continue
         if place in ('dir', 'chain', 'tox') and dname is None:
             place = 'endpoints'
         if place == 'chain' and here_grid != a:
@@ -287,6 +310,8 @@ def expected_component(step):
     if k == 'lamp': return 'lamp', {'P': v['P_ref'], 'V_ref': v['V_ref']}
     if k == 'switch': return 'resistor', {'R': math.inf if v.get('state', 'OPEN') == 'OPEN' else 1e-12}
     if k == 'sc': return 'short_circuit', {}
+    if k == 'Vreal': return 'dc_voltage_source', {'V': complex(v['V']).real, 'R': v['R'], 'w': 0, 'phi': 0}
+    if k == 'Ireal': return 'dc_current_source', {'I': complex(v['I']).real, 'G': 1 / v['R'], 'w': 0, 'phi': 0}
     if k == 'V': return 'dc_voltage_source', {'V': complex(v['V']).real, 'R': 0, 'w': 0, 'phi': 0}
     if k == 'I': return 'dc_current_source', {'I': complex(v['I']).real, 'G': 0, 'w': 0, 'phi': 0}
     if k == 'Vc': return 'complex_voltage_source', {'V_real': complex(v['V']).real, 'V_imag': complex(v['V']).imag, 'R': 0, 'X': 0}
@@ -338,8 +363,9 @@ def intended(program):
     return dict(cls={p: cls(p) for p in points}, names=names, comps=comps, grounds=grounds)
 
 def valid_program(program):
-    """the quantifier of C13: unique element names, at most one ground, at most one name per
-    electrical node and no name used on two nodes"""
+    """the quantifier of C13: unique element names, at most one ground, no name used on two
+    different electrical nodes (one node may carry several names, e.g. a label on the ground node: it is
+    then called by one of them)"""
     spec = intended(program)
     ids = [c['id'] for c in spec['comps']]
     if len(set(ids)) != len(ids):
@@ -348,11 +374,10 @@ def valid_program(program):
         return False
     seen = {}
     for c, ns in spec['names'].items():
-        if len(set(ns)) > 1:
-            return False
-        if ns[0] in seen and seen[ns[0]] != c:
-            return False
-        seen[ns[0]] = c
+        for n in set(ns):
+            if n in seen and seen[n] != c:
+                return False
+            seen[n] = c
     return True
 
 def values_close(a, b, tol=1e-12):
@@ -394,8 +419,8 @@ def compare_with_intended(circuit, spec):
             if not values_close(val[k], w['value'][k]):
                 return 'value', f'{c.id}: {k} = {val[k]!r}, drawn {w["value"][k]!r}', w
     for t, ns in spec['names'].items():
-        if t in cls2lab and cls2lab[t] != ns[0]:
-            return 'name', f'node named {ns[0]!r} in the drawing is called {cls2lab[t]!r}', None
+        if t in cls2lab and cls2lab[t] not in ns:
+            return 'name', f'node named {ns!r} in the drawing is called {cls2lab[t]!r}', None
     if spec['grounds']:
         g = spec['grounds'][0]
         if cls2lab.get(g) != circuit.ground_node:
@@ -548,6 +573,30 @@ def random_geometry(rng, base=None):
              dy=rng.choice([0.0, 3.0, -1.0, 0.5, 0.75, 0.2, 0.9, -7.77, 50.0, 0.01]))
     return g
 
+TIE_OFFSETS = [0.005, 1.005, 0.015, 0.045, 2.675, 0.125, 0.375, 1.115, -0.005, 0.625]
+def tie_geometry(rng):
+    """offsets / units that put grid coordinates on (or within float noise of) a tie of round(x, 2)"""
+    return dict(rot=rng.randint(0, 3), unit=float(rng.choice([3, 2, 5, 2.125, 2.5, 3.125, 4])),
+                dx=rng.choice(TIE_OFFSETS + [0.0]), dy=rng.choice(TIE_OFFSETS))
+
+def linear_source_program(rng):
+    """a loop source – R – R – wire with a ground; the source is a linear (lossy) DC source.  Returns
+    (program, geometry): the unit is the length of the source symbol"""
+    k = rng.choice(list(LINEAR))
+    unit = LINEAR[k][1]
+    key = 'V' if k == 'Vreal' else 'I'
+    corners = [(0, 0), (0, 1), (1, 1), (1, 0)]
+    r = rng.randint(0, 3)
+    if rng.random() < 0.5:
+        corners = corners[::-1]
+    c = corners[r:] + corners[:r]
+    prog = [dict(kind=k, name='Sq', vals={key: signed(rng), 'R': nice(rng)}, rev=False, a=c[0], b=c[1]),
+            dict(kind='R', name='R1', vals={'R': nice(rng)}, rev=rng.random() < 0.3, a=c[1], b=c[2], place=rng.choice(['endpoints', 'dir'])),
+            dict(kind=rng.choice(['R', 'G']), name='R2', vals={}, a=c[2], b=c[3], place='endpoints'),
+            dict(kind='wire', a=c[3], b=c[0], place='endpoints'), dict(kind='gnd', a=c[rng.randint(0, 3)])]
+    prog[2]['vals'] = random_vals(rng, prog[2]['kind'])
+    return prog, dict(rot=rng.randint(0, 3), unit=unit, dx=rng.choice([0.0, 1.0, -2.5]), dy=rng.choice([0.0, 0.5, 7.0]))
+
 def subdivide_wires(rng, program, factor=3):
     """every wire becomes a chain through fresh points of the `factor`× refined grid (when the
     candidate points are unused); all grid coordinates are multiplied by `factor`"""
@@ -589,7 +638,7 @@ def pretty(program, geom=None):
     rows = []
     for s in program:
         if 'b' in s:
-            rows.append(f"{s['kind']}:{s.get('name', '')}{'~' if s.get('rev') else ''} {tuple(s['a'])}->{tuple(s['b'])} {s.get('vals', '')}")
+            rows.append(f"{s['kind']}:{s.get('name', '')}{'~' if s.get('rev') else ''}{'(positional)' if s.get('positional') else ''} {tuple(s['a'])}->{tuple(s['b'])} {s.get('vals', '')}")
         else:
             rows.append(f"{s['kind']}:{s.get('name', '')} @{tuple(s['a'])}")
     return dict(geometry=geom, steps=rows)
